@@ -25,7 +25,7 @@ int main(int argc,char**argv){
 	if(argc<3) return 9;
 	for(char *q=strtok(argv[1],"/"); q && nprog<MAXTH; q=strtok(0,"/")) prog[nprog++]=q;
 	cds_wfs_init(&s); for(int i=0;i<10;i++) cds_wfs_node_init(&n[i]);
-	vs_region(&s.head,sizeof s.head,"head"); vs_region(&s.lock,sizeof s.lock,"lock"); vs_region(n,sizeof n,"n");
+	vs_region(&s.head,sizeof s.head,"head"); vs_region(&s.lock,sizeof s.lock,"lock"); vs_region(n,sizeof n,"n"); vs_plain_track(n,sizeof n);
 	for(int i=0;i<nprog;i++) vs_spawn(body);
 	vs_run(argv[2]);
 	fflush(stdout); _exit(0); }
